@@ -49,7 +49,7 @@ impl ToTokens for Declaration<'_> {
         let ident = &self.0.ident;
         tokens.append_all(quote! {
             let mut __fwd_attrs: ::darling::export::Vec<::darling::export::syn::Attribute> = vec![];
-            let mut #ident: ::darling::export::Option<_> = None;
+            let mut #ident: ::darling::export::Option<_> = ::darling::export::None;
         });
     }
 }
